@@ -117,6 +117,17 @@ def bounded(tier, seed, repo_root):
     pdocs = [d for d in docs if 'None' not in repr(d)]
     jobs += [(('plist', rnd.choice(pdocs)), ('plist', rnd.choice(pdocs)), gt.OPTION_COMBOS[rnd.randrange(9)])
              for _ in range(1000 if tier == 'quick' else 10000)]
+    # larger mapping roots with differing key sets and nested container values (the wrapped MultiSetEdit stays looser than
+    # the collection's constant ceiling for several steps)
+    big = [{"name": "pkg", "version": "1.0.2", "deps": {"a": "1", "b": ["x", "y"]}, "files": ["a.py", "b.py", "c.py"]},
+           {"title": "pkg2", "version": "1.0.3", "requires": {"a": "2", "c": ["x", "z", "w"]}, "files": ["a.py", "d.py"]},
+           {"CFBundleName": "App", "CFBundleVersion": "12", "LSEnvironment": {"PATH": "/usr/bin", "LANG": "C"},
+            "Icons": [{"size": 16, "file": "i16.png"}, {"size": 32, "file": "i32.png"}]},
+           {"BundleName": "App2", "CFBundleVersion": "13", "Environment": {"PATH": "/bin", "TZ": "UTC", "LANG": "C"},
+            "Icons": [{"size": 16, "file": "j16.png"}], "Extra": [[1, 2], [3]]},
+           {"k1": {"k2": {"k3": [1, 2, 3], "k4": "v"}}, "l": [[1], [2, 3]]}, {"m1": {"k2": {"k5": [1, 2], "k4": "w"}}, "l": [[1, 2], [3]]}]
+    jobs += [(('plist', a), ('plist', b), o) for a in big for b in big if a is not b for o in gt.OPTION_COMBOS[::2]]
+    jobs += [(a, b, o) for a in big for b in big if a is not b for o in gt.OPTION_COMBOS[::4]]
     # (a plist document compared with a bare tree: PLISTNode.edits falls through to root.edits(node))
     jobs += [(('plist', a), b, gt.OPTION_COMBOS[0]) for a in roots for b in roots]
     xs, cs = gt.xml_specs(), gt.csv_specs()
